@@ -133,6 +133,15 @@ def systematic() -> list[list[list]]:
             out.append([UN("-"), num(v, base, upper)])
             out.append([UN("~"), num(v, base, upper)])
             out.append([num(v, base, upper), OP(">>"), num(4), OP("&"), num(0xFF, "x")])
+    # the spelling of a literal (leading zeros in binary and hexadecimal) carries no meaning, also under ~
+    for text, v in (("0b0000000000100000", 0x20), ("0b0000000011111111", 0xFF), ("0b00000001", 1), ("0x00FF", 0xFF), ("0x000010", 0x10), ("0x0000FFFF", 0xFFFF),
+                    ("0b000000000000000000000001", 1), ("0x00000000", 0)):
+        lit = ["num", text, v]
+        out.append([lit])
+        out.append([UN("~"), lit])
+        out.append([UN("-"), lit])
+        out.append([UN("~"), lit, OP("&"), num(0xFFFF, "x")])
+        out.append([num(1), OP("+"), UN("~"), lit])
     for s in ENV:
         out.append([sym(s)])
         out.append([sym(s), OP("*"), num(2), OP("+"), sym("va")])
@@ -232,7 +241,7 @@ def contexts_for(tokens, value: int | None = None) -> list[str]:
         if value is not None and 0 <= value < 0x10000:
             ctx.append("rmw")       # unsuffixed read-modify-write operand: width follows the value
     if lexable_in_directive(tokens):
-        ctx += ["dl", "assign", "symbol", "macro", "if", "loop_body", "macro_body_twice", "sparse_loop", "hollow_scopes"]
+        ctx += ["dl", "assign", "symbol", "macro", "if", "loop_body", "macro_body_twice", "sparse_loop", "hollow_scopes", "loop_local_constant"]
         if value is not None and -2 <= value <= 6:
             ctx.append("for")       # loop bound: the body is assembled max(0, value) times
         if value is not None and 0 <= value < 0x100:
@@ -264,6 +273,9 @@ def program_for(ctx: str, text: str) -> str:
     if ctx == "sparse_loop":
         # iterations that expand to nothing stand between the ones that use the expression
         return head + f".for zi := 0, 6 {{\n.if zi & 1 {{\n.dl ({text}) + zi\n}}\n}}\n.macro ms(zp) {{\n.dl ({text}) + zp\n}}\nms(7)\n"
+    if ctx == "loop_local_constant":
+        # a constant assigned inside a loop body belongs to the iteration, also when an outer constant has the same name
+        return head + f"zq := 1\n.for zi := 0, 3 {{\nzq := ({text}) + zi\n.dl zq\n}}\n.dl zq\n.macro mq(zq) {{\n.for zj := 0, 2 {{\nzq := ({text}) + zj\n.dl zq\n}}\n.dl zq\n}}\nmq(7)\n"
     if ctx == "hollow_scopes":
         # scopes that define nothing (bare blocks, an application of a macro without parameters, an empty named scope) around the expression
         return head + f".macro mh() {{\n.dl {text}\n}}\n{{\n{{\n.dl {text}\n{{\nmh()\n}}\n}}\n}}\n.scope hollow {{\n{{\n.dl {text}\n}}\nmh()\n}}\n"
@@ -285,6 +297,8 @@ def expected_bytes(ctx: str, v: int) -> bytes:
         return (b"\xc6" + le(v, 1) + b"\x26" + le(v, 1)) if v < 0x100 else (b"\xce" + le(v, 2) + b"\x2e" + le(v, 2))
     if ctx == "sparse_loop":
         return le(v + 1, 3) + le(v + 3, 3) + le(v + 5, 3) + le(v + 7, 3)
+    if ctx == "loop_local_constant":
+        return le(v, 3) + le(v + 1, 3) + le(v + 2, 3) + le(1, 3) + le(v, 3) + le(v + 1, 3) + le(7, 3)
     if ctx == "hollow_scopes":
         return le(v, 3) * 4
     if ctx == "if":
